@@ -398,7 +398,12 @@ def write_evidence(pid, tier, seed, cfg, tcfg, res, new_violations, known_hits, 
         "wall_s": round(wall, 2),
         "violations": len(new_violations),
     }
-    json.dump(ev, open(os.path.join(VERIF, "evidence", pid + ".json"), "w"), indent=1)
+    evdir = os.path.join(VERIF, "evidence")
+    if os.environ.get("VERIF_NO_EVIDENCE"):
+        # experiments against a deliberately modified tree must not replace the evidence of record
+        evdir = os.path.join(VERIF, "work", "evidence-scratch")
+        os.makedirs(evdir, exist_ok=True)
+    json.dump(ev, open(os.path.join(evdir, pid + ".json"), "w"), indent=1)
 
 
 if __name__ == "__main__":
